@@ -1,6 +1,8 @@
 //! `chan` family: mpsc / spsc / mpmc channels (C06 delivery, C07 disconnect)
 //!
-//! cfg[0] = kind (0 mpsc, 1 spsc, 2 mpmc); cfg[1] = 1: receivers drain until Err at the end
+//! cfg[0] = kind (0 mpsc, 1 spsc, 2 mpmc); cfg[1] = 1: receivers drain until Err at the end;
+//! cfg[2] = 1: every sender keeps its Sender alive until all it has sent was received (a
+//!          blocked receiver must be woken by a send, not only by the disconnect)
 //! actors: role 0 sender, role 1 receiver
 use crate::case::{Actor, Case, Op, Outcome};
 use crate::gen::{self, GenCfg};
@@ -17,6 +19,7 @@ pub const S_SLEEP: u8 = 2; // arg us
 pub const S_CLONE: u8 = 3;
 pub const S_DROP1: u8 = 4;
 pub const S_DROPALL: u8 = 9; // implicit at the end, logged
+pub const S_HOLD: u8 = 8; // implicit before the final drop when cfg[2]==1
 // receiver ops
 pub const R_RECV: u8 = 10;
 pub const R_TRY: u8 = 11;
@@ -43,6 +46,7 @@ pub fn opname(op: u8) -> &'static str {
         S_CLONE => "clone_tx",
         S_DROP1 => "drop_tx",
         S_DROPALL => "drop_all_tx",
+        S_HOLD => "hold_tx_until_received",
         R_RECV => "recv",
         R_TRY => "try_recv",
         R_TIMED => "recv_timeout",
@@ -192,6 +196,8 @@ pub fn run(case: &Case) -> Outcome {
     }
     rxs.push(rx0);
 
+    let hold = case.cfg(2) == 1 && drain;
+    let held_gave_up = std::sync::Arc::new(std::sync::atomic::AtomicBool::new(false));
     let mut handles = vec![];
     for (ai, a) in case.actors.iter().enumerate() {
         let (log, states, ledger) = (log.clone(), states.clone(), ledger.clone());
@@ -199,9 +205,11 @@ pub fn run(case: &Case) -> Outcome {
         let b = base[ai];
         if a.role == 0 {
             let tx = txs.pop().unwrap();
+            let held_gave_up = held_gave_up.clone();
             handles.push(spawn(a.ctx, "sender", move || {
                 let _dg = DoneGuard(&states, ai);
                 let mut hs = vec![tx];
+                let mut sent_ok: Vec<usize> = vec![];
                 let mut k = 0usize;
                 let nops = ops.len();
                 for (i, op) in ops.iter().enumerate() {
@@ -213,7 +221,10 @@ pub fn run(case: &Case) -> Outcome {
                             let c = log.call(ai, i, S_SEND);
                             match hs.last() {
                                 Some(tx) => match tx.send(ledger.tok(id)) {
-                                    Ok(()) => log.ret(c, OK, id as i64),
+                                    Ok(()) => {
+                                        sent_ok.push(id);
+                                        log.ret(c, OK, id as i64)
+                                    }
                                     Err(t) => {
                                         // the value must come back intact
                                         let same = t.valid() && t.id == id;
@@ -239,6 +250,14 @@ pub fn run(case: &Case) -> Outcome {
                         _ => {}
                     }
                     states.leave(ai, i);
+                }
+                if hold && !hs.is_empty() {
+                    // keep the channel connected until everything sent through it has arrived
+                    states.enter(ai, nops, S_HOLD);
+                    if !poll_until(|| sent_ok.iter().all(|id| ledger.drops(*id) > 0), 10_000_000_000) {
+                        held_gave_up.store(true, std::sync::atomic::Ordering::SeqCst);
+                    }
+                    states.leave(ai, nops);
                 }
                 if !hs.is_empty() {
                     states.enter(ai, nops, S_DROPALL);
@@ -477,6 +496,10 @@ pub fn run(case: &Case) -> Outcome {
     out.flag_if(drop_overlap, "last_drop_overlaps_recv");
     out.flag_if(pre, "preempted");
     out.flag_if(total > 32, "more_than_one_block");
+    if held_gave_up.load(std::sync::atomic::Ordering::SeqCst) {
+        out.fail(&format!("{}.receiver-not-woken-by-send", kind_name(kind)), "a sender kept the channel connected for 10 virtual s and what it had sent was still not received".into());
+    }
+    out.flag_if(hold, "senders_hold_until_received");
     out.flag_if(obs.iter().any(|o| o.res == SENDERR || o.res == SENDERR_BAD), "send_error");
     out.flag_if(obs.iter().any(|o| o.res == DISC), "disconnected_seen");
     out.flag_if(obs.iter().any(|o| o.res == TIMEOUT), "timeout_seen");
@@ -535,7 +558,9 @@ pub fn strategy(g: &GenCfg, bias: u8) -> BoxedStrategy<Case> {
         let receivers = proptest::collection::vec((0u8..2, recv_ops), n_r);
         // C06: always drain; C07: mostly drain (the disconnect must be observed), sometimes not
         let drain = if bias == 1 { prop_oneof![4 => Just(1i64), 1 => Just(0i64)].boxed() } else { Just(1i64).boxed() };
-        (senders, receivers, drain, gen::config(&g), gen::schedule(&g, false)).prop_map(move |(s, r, drain, (workers, pool, feat), sched)| {
+        (senders, receivers, (drain, 0u8..3), gen::config(&g), gen::schedule(&g, false)).prop_map(move |(s, r, (drain, h), (workers, pool, feat), sched)| {
+            // holding is only sound when somebody keeps receiving until the disconnect
+            let hold = (h == 0 && drain == 1 && !r.iter().any(|(_, ops)| ops.iter().any(|o| o.0 == R_DROP))) as i64;
             let mut actors = vec![];
             for (ctx, ops) in s {
                 actors.push(Actor { ctx, role: 0, ops });
@@ -543,7 +568,7 @@ pub fn strategy(g: &GenCfg, bias: u8) -> BoxedStrategy<Case> {
             for (ctx, ops) in r {
                 actors.push(Actor { ctx, role: 1, ops });
             }
-            Case { fam: "chan".into(), workers, pool, feat, cfg: vec![kind, drain], actors, sched, weak: 0 }
+            Case { fam: "chan".into(), workers, pool, feat, cfg: vec![kind, drain, hold], actors, sched, weak: 0 }
         })
     })
     .boxed()
